@@ -1,37 +1,60 @@
+"""Finite-universe grounding of quantified formulas (refutation pass, DESIGN section 5).
+
+Quantifiers over the sorts listed in `universes` are expanded over the given ground terms; quantifiers over other sorts
+(Int, sequences, ...) and lambda terms are kept, with their bodies grounded recursively.  The result is implied by the
+original formula (universal instances) only for the expanded universals; expanded existentials restrict the witnesses to the
+universe - so a model of the grounded query in which the universe is closed is a candidate counter-model, replayed natively
+before it is called a failing input.
+"""
+import itertools
 from z3 import *
+
+_fresh = itertools.count()
+
+
 def collect_terms_of_sort(es, sort):
-    seen=set(); out=[]
-    def walk(e):
-        if e.get_id() in seen: return
-        seen.add(e.get_id())
+    seen = set(); out = []; ids = set()
+    def walk(e, under_binder):
+        key = (e.get_id(), under_binder)
+        if key in seen: return
+        seen.add(key)
         if is_quantifier(e):
-            walk(e.body()); return
+            walk(e.body(), True); return
         if is_app(e):
-            if e.sort()==sort and not any(is_var(c) for c in e.children()) and not has_var(e): out.append(e)
-            for c in e.children(): walk(c)
-    for e in es: walk(e)
+            if e.sort() == sort and not has_var(e) and e.get_id() not in ids:
+                ids.add(e.get_id()); out.append(e)
+            for c in e.children(): walk(c, under_binder)
+    for e in es: walk(e, False)
     return out
+
+
+_hv = {}
 def has_var(e):
-    if is_var(e): return True
-    if is_quantifier(e): return has_var(e.body())
-    return any(has_var(c) for c in e.children()) if is_app(e) else False
+    k = e.get_id()
+    if k in _hv: return _hv[k]
+    if is_var(e): r = True
+    elif is_quantifier(e): r = True          # conservative: treat binders as non-ground
+    elif is_app(e): r = any(has_var(c) for c in e.children())
+    else: r = False
+    _hv[k] = r
+    return r
+
+
 def ground(e, universes):
-    """universes: dict sort -> list of ground terms. Expands quantifiers over those sorts."""
     if is_quantifier(e):
-        n=e.num_vars(); sorts=[e.var_sort(i) for i in range(n)]
-        body=e.body()
-        import itertools
-        doms=[]
-        for s in sorts:
-            if s not in universes: raise ValueError('cannot ground sort %s'%s)
-            doms.append(universes[s])
-        insts=[]
-        for combo in itertools.product(*doms):
-            # de Bruijn: var i refers to sorts reversed
-            inst=substitute_vars(body,*reversed(combo))
-            insts.append(ground(inst,universes))
-        return And(insts) if e.is_forall() else Or(insts)
-    if is_app(e) and e.num_args()>0:
-        ch=[ground(c,universes) for c in e.children()]
+        n = e.num_vars(); sorts = [e.var_sort(i) for i in range(n)]
+        expand = (not e.is_lambda()) and all(s in universes and universes[s] for s in sorts)
+        if expand:
+            insts = []
+            for combo in itertools.product(*[universes[s] for s in sorts]):
+                insts.append(ground(substitute_vars(e.body(), *reversed(combo)), universes))
+            return And(insts) if e.is_forall() else Or(insts)
+        # keep the binder: replace the bound variables by fresh constants, ground the body, re-bind
+        consts = [Const(f'gk!{next(_fresh)}', s) for s in sorts]
+        body = ground(substitute_vars(e.body(), *reversed(consts)), universes)
+        if e.is_lambda(): return Lambda(consts, body)
+        return ForAll(consts, body) if e.is_forall() else Exists(consts, body)
+    if is_app(e) and e.num_args() > 0:
+        ch = [ground(c, universes) for c in e.children()]
         return e.decl()(*ch)
     return e
